@@ -33,6 +33,24 @@ func VerifC12Watch() {
 		key []byte
 	}
 	var insW []wkey
+	// PRESET: concrete pre-state shapes that need 3+ keys (inner node with a
+	// leaf and one/two children below a node4 root), then N1 symbolic inserts
+	for _, k := range [][]string{nil, {"a", "ab", "x"}, {"ab", "abc", "abd", "x"}, {"a", "ab", "abc", "x"}, nil}[vnd.Param("PRESET", 0)] {
+		txn.Insert([]byte(k), 5)
+		model.Put([]byte(k), 5)
+	}
+	if vnd.Param("PRESET", 0) == 4 {
+		// {"ab","abc","b"} then "abc" deleted in its own transaction: "ab" is now an
+		// inner node holding a value with no children left
+		for _, k := range []string{"ab", "abc", "b"} {
+			txn.Insert([]byte(k), 5)
+			model.Put([]byte(k), 5)
+		}
+		tree = txn.CommitAndNotify()
+		txn = tree.Txn()
+		txn.Delete([]byte("abc"))
+		model.Del([]byte("abc"))
+	}
 	for i := 0; i < N1; i++ {
 		k := vnd.Bytes("pre", L)
 		if vnd.Param("MODIFYWATCH", 0) == 1 && i%2 == 1 {
